@@ -27,6 +27,14 @@ type CAState struct {
 	// FakeSecret lets an impostor chip (without the private key) derive session keys from
 	// something else: it receives the terminal's public key and returns the "shared secret".
 	FakeSecret func(k *CAKey, pkIFD ecref.Point) []byte
+	// Announced (default nil = every suite with every key): the combinations of cipher suite
+	// and key identifier the chip announces in its ChipAuthenticationInfos (KeyID -1: info
+	// without key identifier). When set, MSE:Set AT naming any other combination of protocol
+	// and key reference is refused (6A80), as a chip does that binds each key to its suite.
+	Announced []CAAnnounce
+	// RequireAccess (default off): the chip refuses chip authentication with 6982 while its
+	// access condition is not satisfied (Card.AuthRequired and not Card.Authed).
+	RequireAccess bool
 
 	pending bool
 	suite   symref.Suite
@@ -40,6 +48,32 @@ type CAState struct {
 	Runs           int
 	LastPKIFD      []byte
 	ViaKAT         bool
+	LastKey        *CAKey // key of the last completed key agreement
+	Refused        int    // commands refused because of RequireAccess / Announced
+}
+
+// CAAnnounce is one announced ChipAuthenticationInfo: suite and key identifier (-1: none).
+type CAAnnounce struct {
+	Suite symref.Suite
+	KeyID int
+}
+
+func (a *CAState) announced(s symref.Suite, keyRef []byte) bool {
+	if a.Announced == nil {
+		return true
+	}
+	for _, an := range a.Announced {
+		if an.Suite != s {
+			continue
+		}
+		if keyRef == nil && an.KeyID < 0 {
+			return true
+		}
+		if keyRef != nil && an.KeyID >= 0 && new(big.Int).SetBytes(keyRef).Cmp(big.NewInt(int64(an.KeyID))) == 0 {
+			return true
+		}
+	}
+	return false
 }
 
 func (a *CAState) selectKey(keyRef []byte) *CAKey {
@@ -64,6 +98,10 @@ func (a *CAState) selectKey(keyRef []byte) *CAKey {
 
 func (a *CAState) mse(c *Card, cmd *Cmd) ([]byte, uint16) {
 	a.pending = false
+	if a.RequireAccess && c.AuthRequired && !c.Authed {
+		a.Refused++
+		return nil, 0x6982
+	}
 	dos, err := ParseDOs(cmd.Data)
 	if err != nil {
 		return nil, 0x6A80
@@ -92,6 +130,10 @@ func (a *CAState) mse(c *Card, cmd *Cmd) ([]byte, uint16) {
 		if !found {
 			return nil, 0x6A80
 		}
+		if !a.announced(a.suite, keyRef) {
+			a.Refused++
+			return nil, 0x6A80
+		}
 		a.key = a.selectKey(keyRef)
 		if a.key == nil {
 			return nil, 0x6A88
@@ -114,6 +156,10 @@ func (a *CAState) mse(c *Card, cmd *Cmd) ([]byte, uint16) {
 
 func (a *CAState) generalAuthenticate(c *Card, cmd *Cmd) ([]byte, uint16) {
 	a.pending = false
+	if a.RequireAccess && c.AuthRequired && !c.Authed {
+		a.Refused++
+		return nil, 0x6982
+	}
 	if cmd.CLA&0x10 != 0 {
 		return nil, 0x6A80
 	}
@@ -149,6 +195,7 @@ func (a *CAState) agree(c *Card, pkBytes, resp []byte) ([]byte, uint16) {
 		return nil, 0x6300
 	}
 	a.K = secret
+	a.LastKey = k
 	a.Suite = a.suite
 	a.KSEnc, a.KSMac = symref.KDF(secret, 1, a.suite), symref.KDF(secret, 2, a.suite)
 	suite, kenc, kmac, real := a.suite, a.KSEnc, a.KSMac, k.Priv != nil
